@@ -1488,6 +1488,13 @@ func (e *Entry) dup() *Entry {
 		}
 	}
 
+	// The list attributes belong to this copy alone: a deviation applied
+	// to one use of a grouping must not show in the others.
+	if e.ListAttr != nil {
+		la := *e.ListAttr
+		ne.ListAttr = &la
+	}
+
 	ne.Extra = make(map[string][]interface{})
 	for k, v := range e.Extra {
 		ne.Extra[k] = v
